@@ -1,5 +1,5 @@
 """C02 - closed-system conservation of elements and charge in reaction steps (batch, MIX, RUN_CELLS, histories)."""
-import os, math
+import os, math, time
 from hypothesis import strategies as st
 from .. import lib, cellgen as G, rawparse as R, inv_util as U, formula as F
 from ..core import Violation, Discard
@@ -36,7 +36,8 @@ ASSUMPTIONS = ["DUMP -all writes every stored reactant with >=14 significant dig
                "-step_size/-pe_step_size (known finding: inventories rounded after 1e5..1e7 mol Newton excursions; inputs use "
                "-step_size 10 -pe_step_size 5), MIX with a negative fraction removing > 30 % of the water (known finding: intensive "
                "properties weighted wrongly, NaN results), O2(g) as pure phase together with O2(g) in the gas phase (known finding: Ba deficit), "
-               "KINETICS -cvode true (the engine does "
+               "calls that do not return within 150 s (each case runs in a forked child; by-product "
+               "finding: NaN total + Runge-Kutta kinetics loops for ever), KINETICS -cvode true (the engine does "
                "not return when a CVODE sub-step cannot be converged: every kinetic block is integrated with Runge-Kutta), kinetic "
                "uptake of substances not abundantly present in every solution (engine does not return)"]
 TECHNIQUE = "property-based testing (Hypothesis) with an independent inventory oracle over DUMP text"
@@ -251,7 +252,7 @@ def check_case(case, ctx):
     every inventory closes, the case is excluded (counted); if it persists, or the second run cannot complete the step,
     the violation stands.  Larger discrepancies, charge, negative amounts and missing entities are never re-examined."""
     try:
-        return _check_case(case, ctx)
+        return _guarded(case, ctx)
     except Violation as v:
         d = v.detail if isinstance(v.detail, dict) else None
         if v.oracle != "element_balance" or d is None or not (d["abs"] <= EXCURSION_ABS):
@@ -263,13 +264,89 @@ def check_case(case, ctx):
             c2 = dict(case)
             c2["knobs_step_size"] = alt
             try:
-                r2 = _check_case(c2, _Quiet(ctx))
+                r2 = _guarded(c2, _Quiet(ctx))
             except (Violation, Discard):
                 continue
             if r2["steps_done"] >= need:
                 ctx.event(PATH_EXCUSE)
                 raise Discard(PATH_EXCUSE)
         raise
+
+
+NO_RETURN_S = 150.0
+NO_RETURN = "excluded_trigger:engine_did_not_return_within_150s"
+
+
+class _Collect(object):
+    """ctx stand-in inside the child process: events are sent back to the parent"""
+
+    def __init__(self, ctx):
+        self._ctx, self.events = ctx, []
+
+    def event(self, name, n=1):
+        self.events.append([name, n])
+
+    def scratch_dir(self):
+        return self._ctx.scratch_dir()
+
+
+def _guarded(case, ctx):
+    """Runs _check_case in a forked child and waits at most NO_RETURN_S for it.  On the pinned tree RunString does not
+    return for about 1 generated case in 10 000 (all with KINETICS: once a sub-step of the Runge-Kutta integration has
+    produced a NaN total - "delta equal NaN", "Negative moles in solution -999 for C, nan. Recovering..." - step() answers
+    MASS_BALANCE for ever and rk_kinetics() halves the time step without bound; by-product finding, domain of C08).  A call
+    that does not return is not a calculation that completes, so the case is outside C02's domain; it is discarded and
+    counted instead of leaving the shard to the driver's 600 s watchdog (which makes the whole run inconclusive)."""
+    import select, signal, json as _json
+    r, w = os.pipe()
+    pid = os.fork()
+    if pid == 0:
+        os.close(r)
+        cc = _Collect(ctx)
+        try:
+            res = ["ok", _check_case(case, cc), cc.events]
+        except Violation as v:
+            res = ["violation", v.oracle, v.msg, v.detail if isinstance(v.detail, dict) else None, cc.events]
+        except Discard as d:
+            res = ["discard", d.why, cc.events]
+        except BaseException as e:           # harness error: report it in the parent
+            res = ["error", repr(e), cc.events]
+        try:
+            os.write(w, _json.dumps(res).encode("utf-8"))
+        finally:
+            os._exit(0)
+    os.close(w)
+    buf, t_end = b"", time.time() + NO_RETURN_S
+    try:
+        while True:
+            left = t_end - time.time()
+            if left <= 0:
+                os.kill(pid, signal.SIGKILL)
+                os.waitpid(pid, 0)
+                ctx.event(NO_RETURN)
+                raise Discard(NO_RETURN)
+            ready, _, _ = select.select([r], [], [], min(left, 5.0))
+            if ready:
+                chunk = os.read(r, 1 << 16)
+                if not chunk:
+                    break
+                buf += chunk
+    finally:
+        os.close(r)
+    _, status = os.waitpid(pid, 0)
+    if not buf:
+        sig = status & 0x7f
+        raise Violation("process-death", "the engine process died (wait status %d, signal %d) on this case" % (status, sig))
+    res = _json.loads(buf.decode("utf-8"))
+    for name, n in res[-1]:
+        ctx.event(name, n)
+    if res[0] == "ok":
+        return res[1]
+    if res[0] == "violation":
+        raise Violation(res[1], res[2], res[3])
+    if res[0] == "discard":
+        raise Discard(res[1])
+    raise RuntimeError("check_case failed in the child process: " + res[1])
 
 
 def _check_case(case, ctx):
